@@ -16,7 +16,7 @@ def _file(X, is_temp):
 
 
 class BodyRead(Contract):
-    props = ('C04', 'C13')
+    props = ('C04', 'C05', 'C13')
     file = 'ombott/request_pkg/body_mixin.py'
     qualname = '_body_read'
     ghost_const = ('stream0',)
